@@ -25,7 +25,9 @@ CHECKS = {
         text="Contract proof: ghost-trace postcondition trace' = trace ++ preorder(node) for the default visitor per node kind (loop "
              "invariant over list fields), dispatch-by-class-name obligations with uninterpreted override handlers, NodeTransformer.visit = TR "
              "(overrides applied exactly at overridden kinds) and the no-override identity lemma; ownership obligations on list mutation; "
-             "dataclass configuration (frozen, generated structural eq) checked on the tree under check.",
+             "dataclass configuration (frozen, generated structural eq; cfg.record: no user-written constructor hook, else undecided) checked "
+             "on the tree under check. A bounded family (labelled, not counted) runs the real base classes on 12 parser-built trees against an "
+             "independent depth-first walk.",
         note=COMMON_NOTE + "dataclasses generates __eq__/__init__/frozen __setattr__ as configured; override handlers are arbitrary deterministic functions.",
         technique="contracts with ghost trace + loop invariants over the real visitor source (pyvc) discharged by z3",
         design="8 C16"),
@@ -202,7 +204,8 @@ CHECKS.update({
         text="Layer 1 (contract proof on the real SQLAlchemy ORM and Core visitors, per operator / function handler per path): the expression "
              "term returned is the entry of the SQLAlchemy translation table (Python operator per comparator / arithmetic operator, operand "
              "order, column.contains/startswith/endswith, strpos - 1, substr(.., i + 1, n), extract(part, ..), cast, and_/or_/invert); ORM and "
-             "Core against the same table. Layer 2 (bounded, labelled, not counted): both backends executed on in-memory SQLite vs reference semantics.",
+             "Core against the same table; cfg.funcnames: every GenericFunction class of functions_ext emits the SQL function it is named after. "
+             "Layer 2 (bounded, labelled, not counted): both backends executed on in-memory SQLite vs reference semantics.",
         note="Which rows a SQLAlchemy expression selects is decided by SQLAlchemy's compiler and SQLite: bounded only; mismatches recorded (LIKE "
              "case-insensitivity and wildcards, strpos/concat missing on SQLite, floor over NULL, true division). The ORM's foreign-key "
              "substitution for relationship operands is tolerated (relationships are C04, n/a). Legacy Query entry style not exercised.",
@@ -232,9 +235,10 @@ CHECKS.update({
         text="Mostly a bounded exploration, with a small proved core. Proved (contracts on the real handlers, all paths): Django visit_Attribute "
              "returns F(<owner lookup>.name + '__' + attr); SQLAlchemy-ORM visit_Attribute returns the attribute of the class the traversed "
              "relationship points to and records that relationship exactly once as a required join; SQLAlchemy-ORM visit_CollectionLambda returns "
-             "visit(xs).any(None) / visit(xs).any(V'(reroot(x, p))) / ~visit(xs).any(~V'(reroot(x, p))) (C15 proves the shorthand joins once; "
+             "visit(xs).any(None) / visit(xs).any(V'(reroot(x, p))) / ~visit(xs).any(~V'(reroot(x, p))); the foreign-key substitution helper returns the "
+             "element or the relationship's local key column and joins nothing (C15 proves the shorthand joins once; "
              "C05/C10 the left-nested path; C17 the relative lambda body). Bounded (labelled, not counted): both back ends executed on in-memory "
-             "SQLite over generated three-table databases (NULL foreign keys, empty collections) for 32 filters with to-one paths, any(), "
+             "SQLite over generated three-table databases (NULL foreign keys, empty collections) for 42 filters with to-one paths, relationships compared with a key / null, any(), "
              "any(x: p), all(x: p), nested lambdas and and/or/not, against reference semantics.",
         note="Django's visit_CollectionLambda is out of reach of the symbolic executor (model-meta loops, introspection of Django expression objects); join kind, join "
              "promotion under `or`, EXISTS correlation are the ORMs' decisions: bounded only. Findings: SQLAlchemy's INNER JOIN drops parents with a "
